@@ -106,6 +106,9 @@ impl<T> SharedFd<T> {
                 })
                 .await
             } else {
+                // Somebody else is waiting already: let go of this handle the way any other
+                // handle does, so that the waiter is woken if this was the last one.
+                drop(Self(inner));
                 None
             }
         }
